@@ -161,6 +161,23 @@ def cases() -> List[Dict[str, Any]]:
             f"impl/sub/{helpers}.py": "from zope.interface import Interface\nclass IBase(Interface):\n    'doc'\nclass Base:\n    def go(self):\n        'doc'\ndef traced(f): return f\n",
             "impl/sub/mine.py": f"from impl.sub.{helpers} import IBase, Base, traced\nclass IMine(IBase):\n    'doc'\nclass Mine(Base):\n    go = traced(Base.go)\n",
         }, ["api", "impl"]))
+    # the same with a package INSIDE the moved package (the whole subtree is analysed where it is written, not only the direct
+    # children): its module reaches outside the moved package by a relative / an absolute import; the re-exporter is a sibling
+    # package sorting before / after the origin, or another root
+    for how, imp in (("relative", "from ...base import Base"), ("absolute", "from top.inner.base import Base")):
+        for api in ("api", "zapi"):
+            out.append(hw(f"moved-package-holding-a-package-{how}-{api}", {
+                "top/__init__.py": "",
+                f"top/{api}/__init__.py": "'Api.'\nfrom ..inner import sub\n__all__ = ['sub']\n",
+                "top/inner/__init__.py": "",
+                "top/inner/base.py": "class Base:\n    'base'\n    def only_base(self):\n        'doc'\n",
+                "top/inner/sub/__init__.py": "",
+                "top/inner/sub/near.py": "from ..base import Base\nclass N(Base):\n    'n'\n",
+                "top/inner/sub/deep/__init__.py": "",
+                "top/inner/sub/deep/mod.py": f"{imp}\nclass C(Base):\n    'c'\n",
+                "top/inner/sub/deep/deeper/__init__.py": "",
+                "top/inner/sub/deep/deeper/leaf.py": "from ..mod import C\nclass L(C):\n    'l'\n",
+            }, ["top"]))
     # a pipeline of modules without any cycle, longer than any depth a cautious implementation might stop following imports at:
     # each stage derives from the next one's class and publishes the next one's helper
     for n in (30, 60):
